@@ -105,7 +105,8 @@ class PVWorld:
     def __init__(self, ident: A.Identity, resume: bool = False):
         self.ident = ident
         self.acc_id = ident.acc_id.encode()
-        self.other_lt = C.SigKey()
+        self.other_lt = C.SigKey()            # "otherLT": any long-term key that is not the stored one (overridable)
+        self.other_id = OTHER_ID              # "OtherId": any identifier that is not the stored one (overridable)
         self.eZ = C.DhKey()
         self.eA0, self.eI0 = C.DhKey(), C.DhKey()
         self.resume = resume
@@ -150,7 +151,7 @@ class PVWorld:
         eA, eZ, I = self.pv.eph.pk, self.eZ.pk, self.ios_pk
         return {"correct": eA + self.acc_id + I,
                 "permuted": I + self.acc_id + eA,
-                "otherId": eA + OTHER_ID + I,
+                "otherId": eA + self.other_id + I,
                 "otherPK": eZ + self.acc_id + I,
                 "old": self.eA0.pk + self.acc_id + self.eI0.pk,
                 "mitm": eA + self.acc_id + eZ}[tr]
@@ -175,7 +176,7 @@ class PVWorld:
         if site == "sig":
             return 64
         if site == "id":
-            return len(self.acc_id if r["id"] == "AccId" else OTHER_ID)
+            return len(self.acc_id if r["id"] == "AccId" else self.other_id)
         if site == "sid":
             return 8
         if site == "enc":
@@ -188,7 +189,7 @@ class PVWorld:
         else:
             sub = []
             if r["id"] != "absent":
-                v = self.acc_id if r["id"] == "AccId" else OTHER_ID
+                v = self.acc_id if r["id"] == "AccId" else self.other_id
                 if r["corrupt"] == "id" and how is not None:
                     v = corrupt(v, how)
                 sub.append((T.IDENTIFIER, v))
@@ -316,6 +317,7 @@ class PSWorld:
         self.m5_items = None
         self.presented_id = None
         self.presented_pk = None
+        self.degenerate = False          # the concrete bytes do not realise the symbolic variant (see _item4)
 
     # K of a party provisioned with another setup code (same salt, its own verifier / key pair)
     def k_other(self) -> bytes:
@@ -364,6 +366,15 @@ class PSWorld:
         v = self.ps.srp.server_proof(bytes(dict(self.m3_items)[T.PROOF]))
         if r["proof"] == "corrupt" and how is not None:
             v = corrupt(v, how)
+        elif r["proof"].startswith("suffix"):
+            n = int(r["proof"][6:])
+            if not any(v[:len(v) - n]):          # the bytes cut off are all zero: same number, not a different proof
+                self.degenerate = True
+            v = v[len(v) - n:]
+        elif r["proof"] == "empty":
+            v = b""
+        elif r["proof"] == "padded":
+            v = b"\x00" + v
         return T.PROOF, v
 
     def build_m4(self, r, wire, partial, honest, how=None, cut_bytes=None) -> bytes:
